@@ -20,6 +20,11 @@ def set_repo(path):
     REPO[0] = path
 
 _MJ_ENUM = {}
+NAMEDTUPLES = set()
+_PROTO = [0]
+# numeric constants of the MuJoCo C API (mjmodel.h)
+_MJ_NUM = {'mujoco.mjMINVAL': 1e-15, 'mujoco.mjPI': 3.14159265358979323846, 'mujoco.mjMAXVAL': 1e10, 'mujoco.mjMINMU': 1e-5,
+           'mujoco.mjMINIMP': 0.0001, 'mujoco.mjMAXIMP': 0.9999, 'mujoco.mjNREF': 2, 'mujoco.mjNIMP': 5}
 
 
 def _mujoco_enum(full):
@@ -1011,7 +1016,35 @@ class NumStr(HostObj):
     def split(self, sep=None, maxsplit=-1):
         return [NumStr([v]) for v in self.vals]
     def strip(self, *a):
-        return self
+        return self._strip(a[0] if a else None, 'b')
+    def rstrip(self, *a):
+        return self._strip(a[0] if a else None, 'r')
+    def lstrip(self, *a):
+        return self._strip(a[0] if a else None, 'l')
+    def _strip(self, chars, side):
+        """str.strip / rstrip / lstrip(chars) of a '%f'-formatted number: a spelled constant is stripped as Python strips
+        its text (and re-read: '10.000000'.rstrip('0.') spells 1); a symbolic value is generic -- removing insignificant
+        zeros / points / blanks does not change what it spells."""
+        if chars is None or not chars.strip():
+            return self
+        if set(chars) - set('0. \t\n+'):
+            raise OutOfFragment('NumStr.strip(%r)' % chars)
+        out = []
+        for v in self.vals:
+            r = Rat.lift(v)
+            if not r.is_const():
+                out.append(v); continue
+            txt = '%f' % float(r.constval())
+            t2 = {'r': txt.rstrip, 'l': txt.lstrip, 'b': txt.strip}[side](chars)
+            if t2 == txt:
+                out.append(v); continue
+            if t2 in ('', '-', '+'):
+                if t2 == '':
+                    continue               # the empty string (falsy: `... or '0'`)
+                raise OutOfFragment('NumStr.strip leaves %r' % t2)
+            new = Fraction(t2)
+            out.append(v if new == Fraction(txt) else Rat.lift(new))
+        return NumStr(out)
     def __bool__(self):
         return len(self.vals) > 0
     def __len__(self):
@@ -1231,6 +1264,28 @@ def P_where(c, a, b):
 _UNARY_CONST = {('exp', 0): 1, ('sin', 0): 0, ('cos', 0): 1, ('tanh', 0): 0, ('log', 1): 0, ('sqrt', 0): 0,
                 ('sqrt', 1): 1, ('arctanh', 0): 0, ('tan', 0): 0, ('arcsin', 0): 0, ('arctan', 0): 0}
 
+def _keepdims(r, axis, keepdims):
+    if not keepdims or axis is None:
+        return r
+    return np.expand_dims(asarr(r), toint(axis) if not isinstance(axis, (int, tuple)) else axis)
+
+def _round_dec(x, decimals=0):
+    """np.round(x, k): exact on constants; on symbolic reals k >= 6 is the precision '%f' already has (the domain carries
+    the spelled VALUE, not its characters: identity), coarser rounding is an uninterpreted atom."""
+    k = toint(decimals) if not isinstance(decimals, int) else decimals
+    def one(v):
+        r = Rat.lift(v)
+        if r.is_const():
+            c = r.constval()
+            if k >= 6:
+                return r                   # exact reals: finer than anything the analysed geometry distinguishes
+            q = Fraction(10) ** k
+            return Rat.lift(Fraction(round(c * q)) / q)
+        if k >= 6:
+            return r
+        return uf('round', v) if k == 0 else uf('round_dec', v, k)
+    return elemwise(one, x)
+
 def unary(name):
     def one(v):
         r = Rat.lift(v)
@@ -1307,7 +1362,7 @@ JNP = {
     'multiply': lambda a, b: asarr(a) * asarr(b), 'add': lambda a, b: asarr(a) + asarr(b), 'divide': lambda a, b: asarr(a) / asarr(b),
     'square': lambda a: asarr(a) * asarr(a), 'expand_dims': lambda a, ax: np.expand_dims(asarr(a), ax),
     'sin': unary('sin'), 'cos': unary('cos'), 'tanh': unary('tanh'), 'arctanh': unary('arctanh'), 'log': unary('log'), 'exp': unary('exp'), 'log1p': lambda x, *a, **k: elemwise(lambda v: unary('log')(1 + Rat.lift(v)), x), 'expm1': lambda x, *a, **k: elemwise(lambda v: unary('exp')(Rat.lift(v)) - 1, x),
-    'sqrt': unary('sqrt'), 'abs': unary('abs'), 'sign': unary('sign'), 'arccos': unary('arccos'), 'arcsin': unary('arcsin'), 'arctan': unary('arctan'), 'tan': unary('tan'), 'floor': unary('floor'), 'isnan': lambda x: elemwise(lambda v: False if Rat.lift(v).is_const() else uf('isnan', v), x), 'isinf': unary('isinf'), 'isfinite': lambda x: elemwise(lambda v: True if Rat.lift(v).is_const() else uf('isfinite', v), x), 'arctan2': lambda a, b: elemwise(_arctan2, a, b), 'logical_and': lambda a, b: asarr(a) * asarr(b), 'logical_not': lambda a: 1 - asarr(a), 'logical_or': lambda a, b: asarr(a) + asarr(b) - asarr(a) * asarr(b), 'repeat': lambda a, n, axis=None: np.repeat(asarr(a), n, axis=axis), 'transpose': lambda a, *ax: np.transpose(asarr(a), *ax), 'outer': lambda a, b: np.outer(asarr(a), asarr(b)), 'trace': lambda a: np.trace(asarr(a)), 'full': lambda shape, v, **k: np.full(shape if isinstance(shape, tuple) else (shape,), None, dtype=object) * 0 + Rat.lift(v) if False else _full(shape, v), 'any': lambda x, axis=None, **k: _any(x, axis), 'all': lambda x, axis=None, **k: _all(x, axis),
+    'sqrt': unary('sqrt'), 'abs': unary('abs'), 'sign': unary('sign'), 'arccos': unary('arccos'), 'arcsin': unary('arcsin'), 'arctan': unary('arctan'), 'tan': unary('tan'), 'floor': unary('floor'), 'isnan': lambda x: elemwise(lambda v: False if Rat.lift(v).is_const() else uf('isnan', v), x), 'isinf': unary('isinf'), 'isfinite': lambda x: elemwise(lambda v: True if Rat.lift(v).is_const() else uf('isfinite', v), x), 'arctan2': lambda a, b: elemwise(_arctan2, a, b), 'logical_and': lambda a, b: asarr(a) * asarr(b), 'logical_not': lambda a: 1 - asarr(a), 'logical_or': lambda a, b: asarr(a) + asarr(b) - asarr(a) * asarr(b), 'repeat': lambda a, n, axis=None: np.repeat(asarr(a), n, axis=axis), 'transpose': lambda a, *ax: np.transpose(asarr(a), *ax), 'outer': lambda a, b: np.outer(asarr(a), asarr(b)), 'trace': lambda a: np.trace(asarr(a)), 'full': lambda shape, v, **k: np.full(shape if isinstance(shape, tuple) else (shape,), None, dtype=object) * 0 + Rat.lift(v) if False else _full(shape, v), 'any': lambda x, axis=None, keepdims=False, **k: _keepdims(_any(x, axis), axis, keepdims), 'all': lambda x, axis=None, keepdims=False, **k: _keepdims(_all(x, axis), axis, keepdims),
     'maximum': lambda a, b: elemwise(lambda x, y: _minmax('max', x, y), a, b),
     'minimum': lambda a, b: elemwise(lambda x, y: _minmax('min', x, y), a, b),
     'roll': lambda a, shift, axis=None: np.roll(asarr(a), toint(shift), axis=axis),
@@ -1456,6 +1511,8 @@ def _all(x, axis=None):
     return out
 
 def toint(i):
+    if isinstance(i, np.ndarray) and i.size == 0:
+        return i.astype(int)
     if isinstance(i, np.ndarray) and i.dtype == object:
         return np.array([int(Rat.lift(x).constval()) for x in i.ravel()]).reshape(i.shape)
     if isinstance(i, Rat):
@@ -1661,7 +1718,7 @@ class Interp:
                 r = self.ev(vn, env, mod)
                 if isinstance(r, Rat) and r.is_const():
                     r = r.constval()
-                if not isinstance(r, conc) and not (isinstance(r, tuple)):
+                if not isinstance(r, conc) and not (isinstance(r, tuple)) and not isinstance(r, HostObj):
                     raise OutOfFragment('bool op on abstract values')
                 if is_and and not r:
                     return r
@@ -1904,6 +1961,8 @@ class Interp:
                 c = _mujoco_enum(full)
                 if c is not None:
                     return c
+            if full in _MJ_NUM:
+                return _MJ_NUM[full]
             return ModRef(full)
         if isinstance(v, tuple) and v and v[0] == 'jnpns':
             x = v[1][a]
@@ -1982,6 +2041,9 @@ class Interp:
             if a == 'shape': return ()
             if a == 'ndim': return 0
             if a == 'dtype': return ('dtype', 'float')
+            if a == 'astype': return ('prim', 'astype', lambda *x, _v=v, **k: _v)
+            if a == 'reshape': return ('prim', 'reshape', lambda *shp, _v=v, **k: np.reshape(asarr(_v), shp[0] if len(shp) == 1 and isinstance(shp[0], (tuple, list)) else shp))
+            if a in ('sum', 'squeeze', 'item', 'copy'): return ('prim', a, lambda *x, _v=v, **k: _v)
         if isinstance(v, AtIdx):
             return ('bound', 'at_' + a, v)
         if isinstance(v, dict):
@@ -1996,8 +2058,13 @@ class Interp:
         if isinstance(v, str) and a == 'join':
             def join(items, _sep=v):
                 items = list(items)
-                if items and all(isinstance(x, NumStr) for x in items):
-                    return NumStr([y for x in items for y in x.vals])
+                def _numeric(x):
+                    try:
+                        Fraction(x); return True
+                    except (ValueError, TypeError):
+                        return False
+                if items and any(isinstance(x, NumStr) for x in items) and all(isinstance(x, NumStr) or (isinstance(x, str) and _numeric(x)) for x in items):
+                    return NumStr([y for x in items for y in (x.vals if isinstance(x, NumStr) else [Rat.lift(Fraction(x))])])
                 return _sep.join(items)
             return ('pybound', join)
         if isinstance(v, tuple) and len(v) == 2 and v[0] == 'builtin' and v[1] in ('dict', 'str', 'int', 'float', 'bytes', 'list', 'tuple', 'set'):
@@ -2472,6 +2539,14 @@ class Interp:
         if isinstance(ax, np.ndarray) and ax.shape == ():
             ax = int(Rat.lift(ax[()]).constval())
         if isinstance(ax, int):
+            if i is None:
+                # prototype member of an EMPTY mapped axis (only the output structure is wanted)
+                def proto(x, ax=ax):
+                    x = asarr(x)
+                    shp = tuple(d for k_, d in enumerate(x.shape) if k_ != (ax % max(x.ndim, 1)))
+                    _PROTO[0] += 1
+                    return symarr('vm0_%d_' % _PROTO[0], shp) if x.dtype == object or x.dtype.kind == 'f' else np.zeros(shp, dtype=x.dtype)
+                return self.tree_map(('prim', 'proto', proto), a)
             return self.tree_map(('prim', 'idx', lambda x, i=i, ax=ax: np.take(asarr(x), i, axis=ax)), a)
         raise OutOfFragment('vmap in_axes %r' % (ax,))
 
@@ -2547,6 +2622,11 @@ class Interp:
                     for idx in np.ndindex(*ph.shape) if ph.shape else [()]:
                         repl[_single_atom_of(ph[idx])] = Rat.lift(asarr(tot)[idx] if asarr(tot).shape else asarr(tot)[()])
             outs = [self.tree_map(('prim', 'subst', lambda x: subst_atoms(asarr(x), lambda a_: repl.get(a_))), o_) for o_ in outs]
+        if n == 0:
+            # jax.vmap over an empty axis: outputs with a leading axis of length 0 and the member's structure
+            o_ = self.apply(vm.fn, [self._slice_axes(a, ax, None) for a, ax in zip(args, in_axes)], kw)
+            stacked = self.tree_map(('prim', 'empty', lambda x: np.zeros((0,) + asarr(x).shape, dtype=object)), o_)
+            return self._move_out_axes(stacked, vm.out_axes)
         stacked = self.tree_map(('prim', 'stack', lambda *a: np.stack([asarr(x) for x in a])), *outs)
         return self._move_out_axes(stacked, vm.out_axes)
 
@@ -2586,6 +2666,8 @@ class Interp:
         for k_, v_ in vals.items():      # keyword fields inherited from external base classes
             if k_ not in out:
                 out[k_] = v_
+        if any((b.id if isinstance(b, ast.Name) else getattr(b, 'attr', None)) == 'NamedTuple' for b in c.node.bases):
+            NAMEDTUPLES.add(name)        # instances unpack / index in field order
         return Struct(name, out, home=c.mod)
 
     def builtin(self, name, args, kw):
@@ -2597,7 +2679,7 @@ class Interp:
             return int(a.constval()) if isinstance(a, Rat) else int(a)
         if name == 'float':
             return float(args[0])
-        if name == 'range': return range(*args)
+        if name == 'range': return range(*[toint(a_) for a_ in args])
         if name == 'zip': return list(zip(*args))
         if name == 'enumerate': return list(enumerate(*args))
         if name == 'list': return list(*args)
@@ -2854,6 +2936,8 @@ class Interp:
                 v = self.widen(v)
             env['v'][t.id] = v
         elif isinstance(t, (ast.Tuple, ast.List)):
+            if isinstance(v, Struct) and v.cls in NAMEDTUPLES:
+                v = list(v.f.values())
             vs = list(v) if not isinstance(v, np.ndarray) else [v[i] for i in range(v.shape[0])]
             if len(vs) != len(t.elts):
                 raise OutOfFragment('unpack arity')
@@ -2914,6 +2998,8 @@ class Interp:
                 if isinstance(c2, Rat) and c2.is_const():
                     c = c2.constval() != 0
             if not isinstance(c, (bool, type(None), int, str, tuple, list, dict)):
+                if getattr(self, 'assume_valid', False) and s.body and all(isinstance(b_, ast.Raise) for b_ in s.body) and not s.orelse:
+                    return      # a validity check on symbolic data of a model that IS valid: the raise is not taken
                 raise OutOfFragment('branch on abstract value: ' + ast.unparse(s.test))
             self.block(s.body if c else s.orelse, env, mod); return
         if t is ast.For:
@@ -3284,7 +3370,7 @@ JNP.update({
     'logical_xor': lambda a, b: asarr(a) + asarr(b) - 2 * asarr(a) * asarr(b),
     'equal': _cmp_prim('=='), 'not_equal': _cmp_prim('!='), 'less': _cmp_prim('<'), 'greater': _cmp_prim('>'),
     'less_equal': _cmp_prim('<='), 'greater_equal': _cmp_prim('>='),
-    'ceil': unary('ceil'), 'round': unary('round'),
+    'ceil': unary('ceil'), 'round': lambda x, decimals=0, **k: _round_dec(x, decimals), 'around': lambda x, decimals=0, **k: _round_dec(x, decimals),
     'identity': lambda n, **k: P_eye(n),
     'newaxis': None, 'nan': float('nan'), 'bool_': ('dtypeclass', 'bool_'), 'number': ('dtypeclass', 'number'),
     'signedinteger': ('dtypeclass', 'signedinteger'), 'unsignedinteger': ('dtypeclass', 'unsignedinteger'), 'generic': ('dtypeclass', 'generic'),
